@@ -75,6 +75,24 @@ def fam_csv(rng: random.Random) -> Grammar:
     return g
 
 
+def fam_lines(rng: random.Random) -> Grammar:
+    """Text whose final line terminator is optional: `x` and `x` + terminator are both
+    words (and differ in the number of <eol> nodes)."""
+    nl = rng.choice(["\n", "\n", "\n", "\r\n"])
+    g = {
+        "<start>": ["<lines>"],
+        "<lines>": ["<line><eol><lines>", "<line><eol>", "<line>"],
+        "<eol>": [nl],
+        "<line>": ["<word>", "<word> <line>"] if rng.random() < 0.6 else ["<word>"],
+        "<word>": ["<char><word>", "<char>"],
+        "<char>": _letters(rng, 2, 5),
+    }
+    if rng.random() < 0.3:
+        g["<start>"] = ["<line>", "<line><eol>"]
+        del g["<lines>"]
+    return g
+
+
 def fam_config(rng: random.Random) -> Grammar:
     g = {
         "<start>": ["<entries>"],
@@ -231,6 +249,7 @@ FAMILIES = {
     "blocks": fam_blocks,
     "csv": fam_csv,
     "config": fam_config,
+    "lines": fam_lines,
     "xml": fam_xml,
     "expr": fam_expr,
     "lenprefix": fam_lenprefix,
@@ -437,7 +456,7 @@ def make_grammar(rng: random.Random, family: Optional[str] = None) -> Tuple[str,
     if family is None:
         family = rng.choice(
             ["assgn", "assgn", "blocks", "csv", "config", "config", "xml", "expr",
-             "lenprefix", "signed", "signed", "ambig", "wide", "random", "random", "random"]
+             "lenprefix", "signed", "signed", "ambig", "wide", "lines", "random", "random", "random"]
         )
     for _ in range(20):
         g = FAMILIES[family](rng)
